@@ -44,8 +44,22 @@ var intBoundaries = []uint64{0, 1, 2, 0x7f, 0x80, 0xff, 0x100, 0x7fff, 0x8000, 0
 	0x100000000, 0x7fffffffffffffff, 0x8000000000000000, 0xffffffffffffffff, 0x0102030405060708, 0x01020304, 0x0102, 0xdeadbeef,
 	0x7fc00001, 0x7fa00001, 0xffc00000, 0x7ff8000000000001, 0x7ff4000000000001, 0x8000000000000001, 0x00000001, 0x0010000000000000}
 
+// bit patterns a float conversion or comparison may not preserve: signed zeros, infinities, quiet and SIGNALLING NaNs
+// with payloads, subnormals
+var f32Boundaries = []uint64{0, 0x80000000, 0x7f800000, 0xff800000, 0x7fc00000, 0x7fc00001, 0x7fa00000, 0x7fa00001, 0x7f800001,
+	0xffa00000, 0xff800001, 0x00000001, 0x007fffff, 0x00800000, 0x3f800000, 0x7f7fffff}
+var f64Boundaries = []uint64{0, 0x8000000000000000, 0x7ff0000000000000, 0xfff0000000000000, 0x7ff8000000000000, 0x7ff8000000000001,
+	0x7ff4000000000000, 0x7ff4000000000001, 0x7ff0000000000001, 0xfff4000000000000, 0x0000000000000001, 0x000fffffffffffff,
+	0x0010000000000000, 0x3ff0000000000000, 0x7fefffffffffffff}
+
 func (r *rng) scalarBits(ity string) uint64 {
 	var v uint64
+	if ity == "F32" && r.chance(1, 2) {
+		return f32Boundaries[r.intn(len(f32Boundaries))]
+	}
+	if ity == "F64" && r.chance(1, 2) {
+		return f64Boundaries[r.intn(len(f64Boundaries))]
+	}
 	if r.chance(1, 2) {
 		v = intBoundaries[r.intn(len(intBoundaries))]
 	} else {
